@@ -3,7 +3,11 @@ C06 — property theorems (only). Model: `HydroVerif/Model/C06.lean` (+ the inte
 `Model/C07.lean`); the direction-code table is `HydroVerif.Generated.FlowDir.codes`, regenerated from
 `FLOWDIRCODE` in grid.py on every run: every theorem below is about that table and goes through
 `tableOK` / `codes_esri` (`Lemmas/C06Table.lean`, closed by `decide` on the table as it is now).
-Helper lemmas: `Lemmas/C06.lean`, `Lemmas/C06Bfs.lean`, `Lemmas/C06Real.lean`, `Lemmas/C07Grid.lean`.
+Helper lemmas: `Lemmas/C06.lean`, `Lemmas/C06Bfs.lean`, `Lemmas/C06Ext.lean` (round 7: flow-path walk in every case, buffer
+size, reachability set, interleaved histories), `Lemmas/C06Round.lean` (what survives rounding), `Lemmas/C06Real.lean`,
+`Lemmas/C07Grid.lean`. The right-hand sides of the theorems (`Reaches`, `chainCell`, `chainSteps`, `chainCells`, `GoesOn`,
+`reachArea`, `countBy`, the ESRI layout) are executable definitions of the model, run by the driver (`chain`, `reach`,
+`count`, `esri` requests) and compared with the real code like every other model function.
 
 All theorems hold for every grid size (`0 < ncols`; a valid cell forces `0 < nrows`), every content of the
 flow-direction grid (any integer in any cell: the eight codes, 0, invalid codes), every outlet, every list of
@@ -22,29 +26,31 @@ CLAUSE -> THEOREMS -> WHAT REMAINS OUTSIDE
     -> downstream_sink, downstream_esri, downstream_invalid_code, downstream_range, downstream_cases_complete
     outside: nothing
 * the delineated area is exactly the outlet plus every cell whose downstream chain reaches the outlet without passing through an inlet; empty when nothing drains to the outlet; each cell listed once
-    -> delineate_ok_iff, reaches_unfold, delineate_cells_valid, wrapper_area_eq
+    -> delineate_ok_iff, delineate_perm_reachArea, reaches_unfold, delineate_cells_valid, wrapper_area_eq, wrapper_buffer_layout
     outside: listing order of idxcells_area (not fixed by the property; not compared)
 * ...for every outlet x every set of inlets, and the call does return the area (total correctness, buffer size)
-    -> delineate_ok_iff_no_cycle, delineate_ok_of_room, delineate_outcomes
-    outside: the buffer must hold len(area)+1 entries (one more than the docstring says) — not a clause of the property
+    -> delineate_ok_iff_no_cycle, delineate_default_total, delineate_ok_of_room, delineate_ok_iff_room, delineate_fits_buffer, delineate_outcomes
+    outside: nothing; the buffer must hold exactly len(area)+1 entries (delineate_ok_iff_room; one more than the docstring says — not a clause of the property); the default call (inlets None, nval 10^6) is total on grids of fewer than 10^6 - 1 cells
 * grids containing flow cycles end in an error or a bounded result, never a hang
-    -> delineate_cycle_error, delineate_outcomes, walks_bounded, cycleThroughOutlet_iff, delineate_length_le
-    outside: termination of the compiled code itself is observed (worker subprocess with time limits). WHICH of the two outcomes (error / bounded result) and its values are left open by the property: where the model's own predicates say so — cycleThroughOutlet (proved = a cycle through the outlet, cycleThroughOutlet_iff), chainCyclic (the river chain has not ended after ncells+1 cells), flowPathCapped (the walk used all its iterations) — the correspondence and the oracle only require an error or a result within the bound; everything else is compared exactly
+    -> delineate_cycle_error, delineate_outcomes, walks_bounded, cycleThroughOutlet_iff, chainCyclic_iff, flowPathCapped_iff, delineate_length_le
+    outside: termination of the compiled code itself is observed (worker subprocess with time limits). WHICH of the two outcomes (error / bounded result) and its values are left open by the property: where the model's own predicates say so — cycleThroughOutlet (proved = a cycle through the outlet, cycleThroughOutlet_iff), chainCyclic (the river chain has not ended after ncells+1 cells; proved = it never ends, chainCyclic_iff), flowPathCapped (the walk used all its iterations; proved = no iteration stops, flowPathCapped_iff) — the correspondence and the oracle only require an error or a result within the bound; everything else is compared exactly
 * the hole-filled area contains the area
-    -> filled_contains_area, filled_empty
-    outside: scipy.ndimage.binary_fill_holes is a parameter of the model with the hypothesis 'keeps the mask' (external); which extra cells it adds is only compared (scipy's answer fed back through the model's cell numbering)
+    -> filled_contains_area, filled_wellformed, filled_empty
+    outside: scipy.ndimage.binary_fill_holes is a parameter of the model with the hypothesis 'keeps the mask' (external; filled_wellformed — each cell once, on the grid — needs no hypothesis on it); which extra cells it adds is only compared (scipy's answer fed back through the model's cell numbering)
 * river traces follow the same downstream chain, advancing 1 per orthogonal and sqrt(2) per diagonal step
-    -> river_trace, river_cells_are_chain, river_displacements, chain_step_euclidean, length_eq_orth_plus_sqrt2_diag, length_real, real_sqrt_hyps, river_guard, walks_bounded
-    outside: x, y columns are C07's cell centres (compared bit for bit, proved in C07); IEEE rounding of the running sum (Float instance executed and compared within 4 ulp)
+    -> river_trace, river_cells_are_chain, river_displacements, chain_step_euclidean, length_eq_orth_plus_sqrt2_diag, length_real, real_sqrt_hyps, river_guard, walks_bounded, river_dist_monotone, length_rounded, length_orthogonal_exact, float_like_models
+    outside: x, y columns are C07's cell centres (compared bit for bit, proved in C07); the exact VALUE of the rounded running sum (Float instance executed and compared within max(4, #steps) ulp) — its order / sign / bounds and the exact lengths of chains without diagonal steps are theorems over any rounded arithmetic (FloatLike: monotone addition, x + 0 = x, sqrt 1 = 1, 1 <= sqrt 2 <= 2)
 * flow-path lengths follow the same downstream chain with the same step lengths
-    -> flowpath_length, flowpath_on_area, flowpath_exit, chain_step_euclidean, length_eq_orth_plus_sqrt2_diag, length_real, pinned_step_misclassified, pinned_wrong_only_on_two_columns
-    outside: rows of cells that are not in a delineated area and neither meet the outlet within len(list)-1 steps nor leave the grid (e.g. the outlet's own row on a cycle cut by an inlet): bounded result only (walks_bounded), modelled and compared; IEEE rounding
+    -> flowpath_length, flowpath_on_area, flowpath_exit, flowpath_cases, flowpath_capped, flowpath_last_step_dropped, flowpath_invalid_start, chain_step_euclidean, length_eq_orth_plus_sqrt2_diag, length_real, length_rounded, length_orthogonal_exact, pinned_step_misclassified, pinned_wrong_only_on_two_columns
+    outside: nothing about the kernel's rows is left uncharacterised (flowpath_cases: exit / outlet with room / outlet at the last iteration, last step dropped / cut after nval steps); for the last two cases the property itself asks a bounded result only, so the correspondence and the oracle compare 'bounded' there; the exact value of the rounded sum (as for rivers)
 * histories: every answer of one Catchment object is about its current grid and the arguments of the call (re-delineation with another outlet / inlets incl. equal-size areas, flowdir edited in place or re-assigned, a failed delineation in between)
-    -> history_delineate, history_flowpaths, history_no_stale_area, wrapper_area_eq
-    outside: the state machine (Model: CatchState / histStep) is tied to the real object by the history stream of the correspondence; clone / pickle / edits of the grid handed to the constructor are compared with the model but never flagged (the property does not say which grid a clone holds — C13)
+    -> history_delineate, history_flowpaths, history_no_stale_area, history_queries_pure, history_query_answer, history_area_wellformed, history_accessors, wrapper_area_eq
+    outside: the state machine (Model: CatchState / histStep / callRun, read-only calls upstream / downstream / delineate_river / idxcells_area / isin interleaved) is tied to the real object by the history stream of the correspondence; clone / pickle / edits of the grid handed to the constructor are compared with the model but never flagged (the property does not say which grid a clone holds — C13)
 -/
 import HydroVerif.Lemmas.C06
 import HydroVerif.Lemmas.C06Real
+import HydroVerif.Lemmas.C06Ext
+import HydroVerif.Lemmas.C06Round
 
 set_option linter.unusedSectionVars false
 
@@ -442,6 +448,114 @@ theorem wrapper_area_eq (hc : 0 < g.ncols) (o : Int) (inlets : List Int) (nval :
     intro c hcA
     exact (validCell_iff.1 (delineate_cells_valid hc h c hcA)).1
 
+/-- **the call with its defaults is total on every grid of fewer than 10^6 - 1 cells**:
+`delineate_area(outlet)` / `delineate_area(outlet, inlets)` with the default buffer returns the area exactly when
+no flow cycle passes through the outlet — the buffer-exhaustion errors can then only mean a cycle -/
+theorem delineate_default_total (hc : 0 < g.ncols) {o : Int} (inlets : Option (List Int))
+    (ho : validCell g.nrows g.ncols o = true)
+    (hin : ∀ m ∈ inlets.getD [], validCell g.nrows g.ncols m = true)
+    (hsmall : g.nrows * g.ncols + 1 ≤ 1000000) :
+    (∃ A, delineateAreaPy codes g o inlets none = .ok A) ↔
+      ¬ ∃ p, 1 ≤ p ∧ Reaches codes g (inlets.getD []) p o o := by
+  unfold delineateAreaPy
+  rw [wrapper_area_eq hc, ← delineate_ok_iff_no_cycle hc ho hin]
+  constructor
+  · rintro ⟨A, h⟩; exact ⟨_, A, h⟩
+  · rintro ⟨nval, A, h⟩
+    have hlen := delineate_length_le hc h
+    have hpos := validCell_iff.1 ho
+    obtain ⟨A', hA', _⟩ := delineate_ok_of_room (nval := (none : Option Int).getD 1000000) h
+      (by simp only [Option.getD_none]; omega)
+    exact ⟨A', hA'⟩
+
+/-- **the buffer a returned area needs**: `len(area) + 1 ≤ nval` — one slot of the work array always stays free -/
+theorem delineate_fits_buffer {o nval : Int} {inlets A : List Int}
+    (h : delineateArea codes g o inlets nval = .ok A) : (A.length : Int) + 1 ≤ nval :=
+  delineateArea_fits h
+
+/-- **… and that is exactly the room it needs**: once the area is returned for some buffer size, it is returned
+for `nval` if and only if `len(area) + 1 ≤ nval` (the hypothesis of `delineate_ok_of_room` cannot be weakened:
+with `nval ≤ len(area)` the call ends in a buffer-exhaustion error, which the harness probes with `nval = len`) -/
+theorem delineate_ok_iff_room {o nval₀ nval : Int} {inlets A : List Int}
+    (h : delineateArea codes g o inlets nval₀ = .ok A) :
+    (∃ A', delineateArea codes g o inlets nval = .ok A') ↔ (A.length : Int) + 1 ≤ nval := by
+  constructor
+  · rintro ⟨A', h'⟩
+    have hfit := delineate_fits_buffer h'
+    obtain ⟨A'', h'', hperm⟩ := delineate_ok_of_room (nval := nval) h' (by omega)
+    -- the area returned at nval has as many cells as A (both are returned with room at a common large size)
+    obtain ⟨B, hB, hBA⟩ := delineate_ok_of_room (nval := max nval₀ nval + (A.length : Int) + (A'.length : Int) + 1)
+      h (by omega)
+    obtain ⟨B', hB', hBA'⟩ := delineate_ok_of_room
+      (nval := max nval₀ nval + (A.length : Int) + (A'.length : Int) + 1) h' (by omega)
+    rw [hB] at hB'
+    cases hB'
+    have : A.length = A'.length := hBA.length_eq.symm.trans hBA'.length_eq
+    omega
+  · intro hroom
+    obtain ⟨A', hA', _⟩ := delineate_ok_of_room (nval := nval) h hroom
+    exact ⟨A', hA'⟩
+
+/-- **the work array as the Python wrapper sees it**: `nval` entries, the cells of the area first, then `-1` to
+the end — at least one (`delineate_fits_buffer`), so the entries `>= 0` are a prefix ending before a `-1` -/
+theorem wrapper_buffer_layout (hc : 0 < g.ncols) {o nval : Int} {inlets A : List Int}
+    (h : delineateArea codes g o inlets nval = .ok A) :
+    (areaBuffer nval A).length = nval.toNat ∧ (areaBuffer nval A).take A.length = A ∧
+    (∀ i, A.length ≤ i → i < nval.toNat → (areaBuffer nval A)[i]? = some (-1)) ∧
+    (areaBuffer nval A)[A.length]? = some (-1) ∧ ∀ c ∈ A, 0 ≤ c := by
+  have hfit := delineate_fits_buffer h
+  have hlen : (areaBuffer nval A).length = nval.toNat := by
+    unfold areaBuffer; rw [List.length_append, List.length_replicate]; omega
+  have hget : ∀ i, A.length ≤ i → i < nval.toNat → (areaBuffer nval A)[i]? = some (-1) := by
+    intro i hi1 hi2
+    unfold areaBuffer
+    rw [List.getElem?_append_right hi1, List.getElem?_replicate]
+    rw [if_pos (by omega)]
+  refine ⟨hlen, ?_, hget, hget _ (le_refl _) (by omega), ?_⟩
+  · unfold areaBuffer; simp
+  · intro c hcA
+    exact (validCell_iff.1 (delineate_cells_valid hc h c hcA)).1
+
+/-- **the area is the brute-force reachability set**: whenever `c_delineate_area` returns, its cells are, up to
+order, `reachArea` — every cell of the grid tested directly against the downstream chain (the property's own
+wording, run by the driver next to the kernel's search and compared with `idxcells_area`) -/
+theorem delineate_perm_reachArea (hc : 0 < g.ncols) {o nval : Int} {inlets A : List Int}
+    (h : delineateArea codes g o inlets nval = .ok A) : A.Perm (reachArea codes g o inlets) := by
+  obtain ⟨hnd, hmem, _⟩ := delineate_ok_iff hc h
+  have hvalid := delineate_cells_valid hc h
+  -- valid arguments (the call returned)
+  obtain ⟨hnval, ho, hin⟩ : 1 ≤ nval ∧ validCell g.nrows g.ncols o = true ∧
+      ∀ m ∈ inlets, validCell g.nrows g.ncols m = true := by
+    rcases delineateArea_cases (codes := codes) (g := g) o inlets nval with
+      ⟨_, e⟩ | ⟨_, _, e⟩ | ⟨_, _, _, e⟩ | ⟨h1, h2, h3, _⟩
+    · rw [e] at h; cases h
+    · rw [e] at h; cases h
+    · rw [e] at h; cases h
+    · exact ⟨h1, h2, h3⟩
+  rw [List.perm_ext_iff_of_nodup hnd (reachArea_nodup o inlets)]
+  intro c
+  rw [hmem c, mem_reachArea]
+  constructor
+  · rintro (⟨rfl, u, hu⟩ | ⟨k, hk, hr⟩)
+    · exact ⟨ho, Or.inl ⟨rfl, u, hu⟩⟩
+    · have hcv : validCell g.nrows g.ncols c = true := by
+        obtain ⟨k', rfl⟩ : ∃ k', k = k' + 1 := ⟨k - 1, by omega⟩
+        exact (reaches_succ_iff.1 hr).1
+      refine ⟨hcv, Or.inr ⟨k, hk, ?_, hr⟩⟩
+      -- a longer walk would close a cycle through the outlet, and the call would not have returned
+      by_contra hlong
+      have hsplit : k = (k - ((g.nrows * g.ncols).toNat + 1)) + ((g.nrows * g.ncols).toNat + 1) := by omega
+      have hr' := hr
+      unfold Reaches at hr'
+      rw [hsplit] at hr'
+      obtain ⟨x, _, hx2⟩ := walk_split (downStep codes g inlets) _ _ c o hr'
+      obtain ⟨p, hp, hcyc⟩ := cycle_of_long_walk (codes := codes) (g := g) (inlets := inlets) (c := x) hx2
+      obtain ⟨e, he, _⟩ := delineate_cycle_error hc hnval ho hin hp hcyc
+      rw [he] at h; cases h
+  · rintro ⟨_, ⟨rfl, u, hu⟩ | ⟨k, hk, _, hr⟩⟩
+    · exact Or.inl ⟨rfl, u, hu⟩
+    · exact Or.inr ⟨k, hk, hr⟩
+
 /-! ### 2b. histories on one `Catchment` object: every answer is about the current state only
 
 `histRun codes s ops` (`Model/C06.lean`) runs a list of calls — `delineate_area`, `compute_flowpathlengths`,
@@ -510,6 +624,119 @@ theorem history_no_stale_area (s : CatchState) {o : Int} {inlets : List Int} {nv
     (histStep codes (histStep codes s (.delineate o inlets nval)).1 .flowpaths).2 = .table (.error .noArea) := by
   simp only [histStep, h]
 
+/-! ### 2c. interleaved histories: read-only calls (`upstream`, `downstream`, `delineate_river`, the accessors
+`idxcells_area`, `isin`) between the others
+
+`callRun codes s calls` (`Model/C06.lean`) runs any list of calls of either kind on one object; `opsOf calls` are
+the state-changing ones among them. -/
+
+section Queries
+variable {α : Type} [Add α] [Mul α] [OfNat α 0] [OfNat α 1] [IntCast α] [Transc α]
+
+/-- **read-only calls never change what the object holds**, whatever they return (an error for a cell off the
+grid, `noArea` while nothing is stored): the state after any interleaved history is the state after its
+state-changing calls alone; there is one reply per call -/
+theorem history_queries_pure (s : CatchState) (calls : List HistCall) :
+    (callRun (α := α) codes s calls).1 = (histRun codes s (opsOf calls)).1 ∧
+    (callRun (α := α) codes s calls).2.length = calls.length :=
+  ⟨callRun_state calls s, callRun_length calls s⟩
+
+/-- **a read-only call after any history answers for the grid as it is now**: `upstream` / `downstream` /
+`delineate_river` give what the kernels give on the constructor's grid with the edits made so far applied —
+so the theorems of §1 and §4 apply to them with `gridAfter g (opsOf calls)` as the grid -/
+theorem history_query_answer (calls : List HistCall) (outlet₀ : Option Int) (area₀ : Option (List Int))
+    (cells : List Int) (start nval : Int) :
+    let s₀ : CatchState := { grid := g, outlet := outlet₀, area := area₀ }
+    let g' := gridAfter g (opsOf calls)
+    (callRun (α := α) codes s₀ (calls ++ [.query (.downstream cells)])).2.getLast? =
+        some (.query (.cells (mapCells (downstream codes g') cells))) ∧
+    (callRun (α := α) codes s₀ (calls ++ [.query (.upstream cells)])).2.getLast? =
+        some (.query (match mapCells (upstream codes g') cells with
+          | .error e => .rows (.error e)
+          | .ok l => .rows (.ok (l.map upstreamRow)))) ∧
+    (callRun (α := α) codes s₀ (calls ++ [.query (.river start nval)])).2.getLast? =
+        some (.query (.river (delineateRiver codes g' start nval))) := by
+  intro s₀ g'
+  have hst : (callRun (α := α) codes s₀ calls).1.grid = g' := by
+    rw [callRun_state, histRun_grid]
+  refine ⟨?_, ?_, ?_⟩ <;>
+  · rw [callRun_append, List.getLast?_append]
+    simp only [List.getLast?_singleton, Option.some_or, callStep, histQuery, hst]
+    try rfl
+
+/-- **what an object holds is always well formed**, after any list of calls — delineations that failed, edits,
+tables, in any order: a stored area comes with its outlet, lists no cell twice and only cells of the grid. So
+`compute_flowpathlengths` never hands the kernel a start cell off the grid, and never lacks the outlet. -/
+theorem history_area_wellformed (hc : 0 < g.ncols) (ops : List HistOp) {A : List Int}
+    (h : (histRun codes (CatchState.init g) ops).1.area = some A) :
+    (∃ o, (histRun codes (CatchState.init g) ops).1.outlet = some o) ∧ A.Nodup ∧
+      ∀ c ∈ A, validCell g.nrows g.ncols c = true := by
+  have key : ∀ (ops : List HistOp) (s : CatchState), s.grid.nrows = g.nrows → s.grid.ncols = g.ncols →
+      (∀ A, s.area = some A → (∃ o, s.outlet = some o) ∧ A.Nodup ∧ ∀ c ∈ A, validCell g.nrows g.ncols c = true) →
+      ∀ A, (histRun codes s ops).1.area = some A →
+        (∃ o, (histRun codes s ops).1.outlet = some o) ∧ A.Nodup ∧ ∀ c ∈ A, validCell g.nrows g.ncols c = true := by
+    intro ops
+    induction ops with
+    | nil => intro s _ _ hs A hA; exact hs A hA
+    | cons op ops ih =>
+      intro s hr hcs hs A hA
+      simp only [histRun] at hA ⊢
+      obtain ⟨hr', hcs'⟩ := histStep_shape (codes := codes) s op
+      refine ih (histStep codes s op).1 (hr'.trans hr) (hcs'.trans hcs) ?_ A hA
+      intro B hB
+      cases op with
+      | delineate o inl nval =>
+        rw [histStep_delineate_state] at hB ⊢
+        have hc' : 0 < s.grid.ncols := by rw [hcs]; exact hc
+        have hw := wrapper_area_eq (g := s.grid) hc' o inl nval
+        cases hwa : wrapperArea codes s.grid o inl nval with
+        | error e => rw [hwa] at hB; simp at hB
+        | ok a =>
+          rw [hwa] at hB
+          simp only [Option.some.injEq] at hB
+          subst hB
+          rw [hwa] at hw
+          refine ⟨⟨o, rfl⟩, (delineate_ok_iff hc' hw.symm).1, ?_⟩
+          intro c hcm
+          have := delineate_cells_valid hc' hw.symm c hcm
+          rwa [hr, hcs] at this
+      | flowpaths => rw [histStep_flowpaths_state] at hB ⊢; exact hs B hB
+      | setCell c v => exact hs B hB
+      | setGrid fd => exact hs B hB
+  exact key ops (CatchState.init g) rfl rfl (fun A hA => by simp [CatchState.init] at hA) A h
+
+/-- **the accessors after a delineation**: `idxcells_area` is the area just returned and `isin(c)` says whether
+`c` is one of its cells — i.e. (`delineate_ok_iff`) whether `c` drains to the outlet without passing an inlet;
+after a delineation that failed both raise -/
+theorem history_accessors (hc : 0 < g.ncols) (ops : List HistOp) (outlet₀ : Option Int)
+    (area₀ : Option (List Int)) (o : Int) (inlets : List Int) (nval c : Int) :
+    let s := (histStep codes (histRun codes { grid := g, outlet := outlet₀, area := area₀ } ops).1
+      (.delineate o inlets nval)).1
+    (histQuery (α := α) codes s .area =
+      .cells (match delineateArea codes (gridAfter g ops) o inlets nval with
+        | .ok A => .ok A
+        | .error _ => .error .noArea)) ∧
+    (histQuery (α := α) codes s (.isin c) =
+      .flag (match delineateArea codes (gridAfter g ops) o inlets nval with
+        | .ok A => .ok (decide (c ∈ A))
+        | .error _ => .error .noArea)) := by
+  intro s
+  have hg := histRun_grid (codes := codes) ops { grid := g, outlet := outlet₀, area := area₀ }
+  have hc' : 0 < (gridAfter g ops).ncols := by rw [(gridAfter_shape ops g).2]; exact hc
+  have hw := wrapper_area_eq (g := gridAfter g ops) hc' o inlets nval
+  have hs : s.area = match delineateArea codes (gridAfter g ops) o inlets nval with
+      | .ok A => some A
+      | .error _ => none := by
+    show (histStep codes _ (.delineate o inlets nval)).1.area = _
+    simp only [histStep, hg]
+    rw [hw]
+    cases delineateArea codes (gridAfter g ops) o inlets nval <;> rfl
+  constructor <;>
+  · simp only [histQuery, hs]
+    cases delineateArea codes (gridAfter g ops) o inlets nval <;> rfl
+
+end Queries
+
 /-! ### 3. the hole-filled area contains the area -/
 
 /-- **filled ⊇ area** for any hole-filling routine that keeps the cells of the mask it is given (the only
@@ -520,6 +747,15 @@ theorem filled_contains_area (hc : 0 < g.ncols)
     {o nval : Int} {inlets A : List Int} (h : delineateArea codes g o inlets nval = .ok A) :
     ∀ a ∈ A, a ∈ areaFilled g fill A :=
   mem_areaFilled hc fill hfill A (delineate_cells_valid hc h)
+
+/-- **the filled list is well formed whatever the fill routine returns** (no hypothesis on `fill` at all): no cell
+twice, only cells of the grid — the rectangle handed to `binary_fill_holes` lies inside the grid and its cells are
+numbered back in strictly increasing order -/
+theorem filled_wellformed (hc : 0 < g.ncols)
+    (fill : Nat → Nat → (Nat → Nat → Bool) → (Nat → Nat → Bool))
+    {o nval : Int} {inlets A : List Int} (h : delineateArea codes g o inlets nval = .ok A) :
+    (areaFilled g fill A).Nodup ∧ ∀ x ∈ areaFilled g fill A, validCell g.nrows g.ncols x = true :=
+  areaFilled_wellformed hc fill A (delineate_ok_iff hc h).1 (delineate_cells_valid hc h)
 
 /-- nothing drains to the outlet: the filled area is empty too -/
 theorem filled_empty (fill : Nat → Nat → (Nat → Nat → Bool) → (Nat → Nat → Bool)) :
@@ -598,6 +834,88 @@ theorem flowpath_exit {start outlet x : Int} {j nval : Nat}
   rw [h]
   exact ⟨rfl, rfl⟩
 
+/-- **a walk that nothing stops is cut after `nval` steps** (a flow cycle that avoids the outlet, a list of cells
+shorter than the chain): when each of the first `nval` iterations goes on — the cell is on the grid, drains to a
+cell, and that cell is not the outlet — the row reports the cell `nval` steps down the chain and the `nval` steps
+made; this is the case the model flags with `flowPathCapped` -/
+theorem flowpath_capped {start outlet : Int} {nval : Nat} (h1 : 1 ≤ nval)
+    (hgo : ∀ i, i < nval → GoesOn codes g outlet start i) :
+    flowPath codes g outlet nval start =
+      (chainCell codes g nval start, chainSteps codes g (isDiag g.ncols) nval start) ∧
+    flowPathCapped codes g outlet nval start = true := by
+  obtain ⟨e1, e2⟩ := flowPathWith_capped (codes := codes) (g := g) (isDiag g.ncols) h1 hgo
+  refine ⟨e1, ?_⟩
+  unfold flowPathCapped
+  rw [e2]; exact beq_self_eq_true _
+
+/-- **`flowPathCapped` (where the correspondence compares "bounded" only) is exactly "no iteration stops"** -/
+theorem flowPathCapped_iff {start outlet : Int} {nval : Nat} (h1 : 1 ≤ nval)
+    (hv : validCell g.nrows g.ncols start = true) :
+    flowPathCapped codes g outlet nval start = true ↔ ∀ i, i < nval → GoesOn codes g outlet start i :=
+  flowPathCapped_iff_goesOn tableOK h1 hv
+
+/-- **the hypothesis `k + 1 < nval` of `flowpath_length` is needed**: a chain that first meets the outlet after
+exactly as many steps as cells were handed to the kernel is reported with the outlet as end cell but WITHOUT its
+last step (one step short). By `flowpath_on_area` this never happens on a delineated area; the harness probes the
+kernel at this point with cell lists of exactly that length. -/
+theorem flowpath_last_step_dropped {start outlet : Int} {k : Nat}
+    (hw : Reaches codes g [] (k + 1) start outlet)
+    (hfirst : ∀ j, 1 ≤ j → j ≤ k → ¬ Reaches codes g [] j start outlet) :
+    flowPath codes g outlet (k + 1) start = (outlet, chainSteps codes g (isDiag g.ncols) k start) ∧
+    (flowPath codes g outlet (k + 1) start).2.length + 1 =
+      (chainSteps codes g (isDiag g.ncols) (k + 1) start).length := by
+  have hvo := (walk_chainCell tableOK k start outlet hw).2
+  have h := flowPathWith_last_step_dropped (codes := codes) (g := g) (isDiag g.ncols) hw hfirst
+    (validCell_iff.1 hvo).1
+  unfold flowPath
+  rw [h]
+  refine ⟨rfl, ?_⟩
+  rw [chainSteps_succ_last]; simp
+
+/-- a start cell off the grid (`c_downstream` refuses it: `ierr_down > 0`) gives the row `(-1, 0)` -/
+theorem flowpath_invalid_start (outlet start : Int) (nval : Nat)
+    (hv : validCell g.nrows g.ncols start = false) :
+    flowPath codes g outlet nval start = (-1, []) :=
+  flowPathWith_invalid (isDiag g.ncols) outlet start nval (Or.inl hv)
+
+/-- **every row of the flow-path table is one of four cases, each with its result** — for any start cell of the
+grid, any outlet, any number `nval ≥ 1` of cells handed to the kernel: the chain drains nowhere first (exit code,
+length 0); it first meets the outlet with room (`flowpath_length`); it first meets the outlet at the very last
+iteration (last step dropped); or nothing stops the walk (cut after `nval` steps). Nothing about the kernel's
+result is left uncharacterised. -/
+theorem flowpath_cases (outlet start : Int) {nval : Nat} (h1 : 1 ≤ nval)
+    (hv : validCell g.nrows g.ncols start = true) :
+    (∃ j x, j + 1 ≤ nval ∧ Reaches codes g [] j start x ∧ downstreamCell codes g x < 0 ∧
+        (∀ i, 1 ≤ i → i ≤ j → chainCell codes g i start ≠ outlet) ∧
+        flowPath codes g outlet nval start = (downstreamCell codes g x, [])) ∨
+    (∃ k, k + 1 < nval ∧ Reaches codes g [] (k + 1) start outlet ∧
+        (∀ j, 1 ≤ j → j ≤ k → ¬ Reaches codes g [] j start outlet) ∧
+        flowPath codes g outlet nval start = (outlet, chainSteps codes g (isDiag g.ncols) (k + 1) start)) ∨
+    (∃ k, k + 1 = nval ∧ Reaches codes g [] (k + 1) start outlet ∧
+        (∀ j, 1 ≤ j → j ≤ k → ¬ Reaches codes g [] j start outlet) ∧
+        flowPath codes g outlet nval start = (outlet, chainSteps codes g (isDiag g.ncols) k start)) ∨
+    ((∀ i, i < nval → GoesOn codes g outlet start i) ∧
+        flowPath codes g outlet nval start =
+          (chainCell codes g nval start, chainSteps codes g (isDiag g.ncols) nval start)) := by
+  rcases flowPath_cases (codes := codes) (g := g) tableOK outlet start nval hv with
+    ⟨j, x, hj, hr, hvx, hno, hneg⟩ | ⟨k, hk, hw, hfirst⟩ | hgo
+  · left
+    refine ⟨j, x, hj, hr, hneg, hno, ?_⟩
+    have := flowPathWith_exit (g := g) (isDiag g.ncols) hr hvx hno hneg hj
+    unfold flowPath; exact this
+  · by_cases hlt : k + 1 < nval
+    · right; left
+      refine ⟨k, hlt, hw, hfirst, ?_⟩
+      have := flowPathWith_reach (g := g) tableOK (isDiag g.ncols) hw hfirst hlt
+      unfold flowPath; exact this
+    · right; right; left
+      have hk' : k + 1 = nval := by omega
+      refine ⟨k, hk', hw, hfirst, ?_⟩
+      rw [← hk']
+      exact (flowpath_last_step_dropped hw hfirst).1
+  · right; right; right
+    exact ⟨hgo, (flowpath_capped h1 hgo).1⟩
+
 /-- **river trace**: the cells are the downstream chain from the start cell and the distance in row `i` is
 the length of the first `i` steps of that chain -/
 theorem river_trace (hs0 : Transc.sqrt (0 : α) = 0) {start nval : Int} {rows : List (RiverRow α)}
@@ -654,6 +972,13 @@ theorem walks_bounded (outlet : Int) (n : Nat) (start nval : Int) {rows : List (
     · cases h
   · exact flowPathWith_bound _ _ _ _
 
+/-- **`chainCyclic` (where the correspondence compares "error or bounded result" only, for rivers) is exactly "the
+chain from the start cell never ends"**: it never stands on a sink, an exit or an invalid code — on a finite grid,
+it runs into a flow cycle (pigeonhole: two of its first `ncells + 1` cells coincide, and it repeats from there) -/
+theorem chainCyclic_iff {start : Int} (hv : validCell g.nrows g.ncols start = true) :
+    chainCyclic codes g start = true ↔ ∀ k, 0 ≤ chainCell codes g (k + 1) start :=
+  chainCyclic_iff_never_ends tableOK hv
+
 /-- a start cell off the grid is rejected -/
 theorem river_guard (start nval : Int) (hv : validCell g.nrows g.ncols start = false) :
     (delineateRiver codes g start nval : Except Err (List (RiverRow α))) = .error .badCell := by
@@ -673,6 +998,48 @@ theorem length_real (steps : List Bool) :
 /-- over the reals the hypotheses `sqrt 0 = 0`, `sqrt 1 = 1` of the theorems of this section hold -/
 theorem real_sqrt_hyps : realTransc.sqrt (0 : ℝ) = 0 ∧ realTransc.sqrt (1 : ℝ) = 1 :=
   ⟨realTransc_sqrt_zero, realTransc_sqrt_one⟩
+
+/-! ### 4b. what survives IEEE rounding: order, sign, bounds, and exact lengths of orthogonal chains
+
+The theorems above are exact (commutative ring). `FloatLike F` (`Lemmas/C06Round.lean`) lists facts true of a
+rounded arithmetic — monotone addition, `x + 0 = x`, `sqrt 1 = 1`, `1 ≤ sqrt 2 ≤ 2`, `sqrt` of a non-negative
+number non-negative — and the statements below need nothing else; `countBy 1 n` is `0 + 1 + … + 1` in the same
+arithmetic (the double `n` itself, `n < 2^53`). -/
+
+section Rounded
+variable {F : Type} [Add F] [Mul F] [OfNat F 0] [OfNat F 1] [IntCast F] [Transc F] [LinearOrder F]
+
+/-- **lengths under rounding**: non-negative; between `n` and `2n` (counted in the same arithmetic) after `n`
+steps; never smaller after one more step -/
+theorem length_rounded (h : FloatLike F) (steps : List Bool) :
+    (0 : F) ≤ pathLength steps ∧
+    (countBy (1 : F) steps.length ≤ pathLength steps ∧ (pathLength steps : F) ≤ countBy (1 + 1) steps.length) ∧
+    ∀ d : Bool, (pathLength steps : F) ≤ pathLength (steps ++ [d]) :=
+  pathLength_rounded h steps
+
+/-- **a chain without diagonal steps has exactly the counted length**, rounding or not: the kernel's sum is the
+count itself — in IEEE double the integer number of steps, bit for bit -/
+theorem length_orthogonal_exact (hs1 : Transc.sqrt (1 : F) = 1) (steps : List Bool)
+    (horth : ∀ d ∈ steps, d = false) : (pathLength steps : F) = countBy 1 steps.length :=
+  pathLength_orthogonal hs1 steps horth
+
+/-- **the distance column of a river never decreases and is never negative**, under rounding -/
+theorem river_dist_monotone (h : FloatLike F) {start nval : Int} {rows : List (RiverRow F)}
+    (hr : delineateRiver codes g start nval = .ok rows) :
+    (rows.map (·.dist)).Pairwise (· ≤ ·) ∧ ∀ r ∈ rows, (0 : F) ≤ r.dist := by
+  unfold delineateRiver at hr
+  split at hr
+  · cases hr
+    obtain ⟨h1, h2⟩ := riverLoop_dist_mono h codes g nval.toNat start 0 0 0
+    exact ⟨h2, h1⟩
+  · cases hr
+
+end Rounded
+
+/-- the rounded-arithmetic hypotheses are met by the reals (exact arithmetic) and by a toy arithmetic that really
+rounds (`0 .. 8`, saturating: not a ring, `length_eq_orth_plus_sqrt2_diag` fails in it) -/
+theorem float_like_models : (letI := realTransc; FloatLike ℝ) ∧ FloatLike Sat :=
+  ⟨floatLike_real, floatLike_sat⟩
 
 /-- **the defect of the pinned kernel, as a theorem**: on a 2-column grid the step from column 1 of a row to
 column 0 of the next row (south-west) is diagonal, but the pinned classification `|Δidx| == 1 || == ncols`
@@ -718,6 +1085,33 @@ example : cycleThroughOutlet codes exCycle 0 [] = true ∧ cycleThroughOutlet co
     chainCyclic codes exCycle 1 = true ∧ chainCyclic codes exGrid 1 = false ∧
     flowPathCapped codes exCycle 5 2 0 = true ∧ flowPathCapped codes exGrid 2 2 1 = false := by decide
 example : chainCells codes exGrid 5 1 = [1, 2] ∧ chainSteps codes exGrid (isDiag 2) 1 1 = [true] := by decide
+
+/-! non-vacuity of the round-7 theorems -/
+-- the area as a reachability set; the room a delineation needs (3 slots for 2 cells, error with 2)
+example : delineateAreaPy codes exGrid 2 none (some 10) = .ok [1, 2] ∧
+    delineateAreaPy codes exGrid 2 (some [1]) (some 10) = .ok [] := by decide
+example : reachArea codes exGrid 2 [] = [1, 2] ∧ reachArea codes exGrid 2 [1] = [] ∧
+    delineateArea codes exGrid 2 [] 3 = .ok [1, 2] ∧ delineateArea codes exGrid 2 [] 2 = .error .outletFull ∧
+    areaBuffer 4 [1, 2] = [1, 2, -1, -1] := by decide
+-- a walk nothing stops (the 2-cycle of exCycle, outlet elsewhere): cut after nval = 3 steps, flagged capped
+example : (∀ i, i < 3 → GoesOn codes exCycle 7 0 i) ∧
+    flowPath codes exCycle 7 3 0 = (1, [false, false, false]) ∧ flowPathCapped codes exCycle 7 3 0 = true ∧
+    goesOnCount codes exCycle 7 0 3 = 3 ∧ goesOnCount codes exGrid 2 1 3 = 0 := by decide
+-- the boundary case: cell 1 of exGrid meets the outlet 2 after k + 1 = 1 = nval steps: the step is dropped
+example : Reaches codes exGrid [] 1 1 2 ∧ flowPath codes exGrid 2 1 1 = (2, []) ∧
+    flowPath codes exGrid 2 2 1 = (2, [true]) ∧ flowPath codes exGrid 2 2 9 = (-1, []) := by
+  refine ⟨by unfold Reaches; decide, by decide, by decide, by decide⟩
+-- an interleaved history: queries between a delineation, an edit and a second delineation
+example : ((callRun (α := Sat) codes (CatchState.init exGrid)
+      [.query .area, .op (.delineate 2 [] 10), .query (.isin 1), .query (.downstream [1]), .op (.setCell 1 0),
+       .query (.downstream [1]), .query (.isin 1), .op (.delineate 2 [] 10), .query (.isin 1), .query .area]).2.map fun
+        | .query (.flag (.ok b)) => some (if b then 1 else 0)
+        | .query (.cells (.ok l)) => l.head?
+        | .query (.cells (.error _)) => some (-9)
+        | _ => none) =
+      [some (-9), none, some 1, some 2, none, some (-2), some 1, none, some 0, none] := by decide
+-- counting in a rounded arithmetic; an orthogonal chain has the counted length there
+example : (countBy (1 : Sat) 12) = Sat.mk 8 ∧ (pathLength [false, false, false] : Sat) = countBy 1 3 := by decide
 
 /-- a history with two delineations of equal size on one object, an edit in between -/
 example : ((histRun codes (CatchState.init exGrid)
